@@ -4,7 +4,8 @@
    tie between model and code: an edit to one of the translated pieces of Rust
    changes Extracted.v and breaks the corresponding lemma (or, if the code
    leaves the supported subset, the extraction and with it the lemma). *)
-From XcpModel Require Import Base Extents Blocks Sparse CopyLoop FileCopy Updater Meta Extracted.
+From XcpModel Require Import Base Extents Blocks Sparse CopyLoop FileCopy Updater Meta Backup Extracted.
+From Coq Require Import String.
 From Coq Require Import Lia.
 
 (* ---- libfs::merge_extents: the translated loop is the model's recursion ---- *)
@@ -111,4 +112,33 @@ Proof.
   repeat match goal with |- context [N.eqb ?a ?b] =>
            let v := eval vm_compute in (N.eqb a b) in change (N.eqb a b) with v end.
   destruct ow, np, nt, fs; cbn [xorb app]; rewrite ?app_nil_r, <- ?app_assoc; reflexivity.
+Qed.
+
+(* ---- Config::from: --no-progress selects one block per file (u64::MAX) ---- *)
+Theorem x_config_block_size_ok : forall bs,
+  x_config_block_size true bs = U64MAX /\ x_config_block_size false bs = bs.
+Proof. intros. split; reflexivity. Qed.
+
+(* ---- backup.rs: the next number is the largest existing one plus one (0 when none) ---- *)
+Theorem x_next_backup_ok : forall base entries,
+  next_backup_num base entries =
+  (let n := x_next_backup_from_max (fold_right N.max x_backup_max_default (backup_nums base entries)) in
+   if n <? U64 then Some n else None).
+Proof. reflexivity. Qed.
+
+Theorem x_backup_pattern_ok : x_backup_pattern = "^\~(\d+)\~$"%string.
+Proof. reflexivity. Qed.
+
+(* ---- CopyHandle::try_reflink: the decision table ---- *)
+Definition rl_code (o : rl_out) : N := match o with RlCloned => 1 | RlCopy => 0 | RlFail _ => 2 end.
+Definition mode_of_code (m : N) : reflink_mode := if m =? 0 then RfAuto else if m =? 1 then RfAlways else RfNever.
+
+Theorem x_try_reflink_ok : forall m, m < 3 ->
+  fst (try_reflink (mode_of_code m) ClOk) = x_try_reflink_issues_clone m /\
+  rl_code (snd (try_reflink (mode_of_code m) ClOk)) = x_try_reflink m true /\
+  rl_code (snd (try_reflink (mode_of_code m) ClUnsup)) = x_try_reflink m false /\
+  (forall e, rl_code (snd (try_reflink (mode_of_code m) (ClErr e))) = if x_try_reflink_issues_clone m then 2 else 0).
+Proof.
+  intros m Hm. assert (m = 0 \/ m = 1 \/ m = 2) as H by lia.
+  destruct H as [H|[H|H]]; subst m; repeat split; reflexivity.
 Qed.
